@@ -37,6 +37,7 @@ pub fn configs(thorough: bool) -> Vec<McConfig> {
     v.push(McConfig { name: "oscillation/dof5/w=1/sd", fns: vec![(Kind::Sinus, vec![0, 1])], truth: vec![1.3, 0.4], coef: vec![3.0], n: 8, xmax: 6.0, base: 1e-3, slope: 1.0, wmode: 1, built: false });
     // small absolute units (signal 1e-6, noise 1e-9): variances of the order 1e-18 are ordinary numbers
     v.push(McConfig { name: "decay+offset/units1e-6/w=1/sd", fns: vec![(Kind::Exp, vec![0]), (Kind::One, vec![])], truth: vec![2.5], coef: vec![4e-6, 1e-6], n: 30, xmax: 10.0, base: 2e-9, slope: 1.0, wmode: 1, built: true });
+    v.push(McConfig { name: "decay+offset/dead-channels/w=1/sd", fns: vec![(Kind::Exp, vec![0]), (Kind::One, vec![])], truth: vec![2.5], coef: vec![4.0, 1.0], n: 31, xmax: 10.0, base: 2e-3, slope: 1.0, wmode: 3, built: false });
     v.push(McConfig { name: "decay+offset/dof2/unweighted", fns: vec![(Kind::Exp, vec![0]), (Kind::One, vec![])], truth: vec![2.0], coef: vec![3.0, 1.0], n: 5, xmax: 6.0, base: 1e-3, slope: 0.0, wmode: 0, built: false });
     // badly SCALED but perfectly identifiable problems (units): a nanosecond lifetime on a time axis in
     // seconds, amplitudes of 1e9 – the columns of H differ by 9 orders of magnitude
@@ -64,10 +65,14 @@ pub fn run_config(out: &mut Out, cfg: &McConfig, seed: u64, nfits: usize) {
         fns: cfg.fns.iter().map(|(k, ps)| FnSpec { kind: *k, params: ps.clone() }).collect(),
         x: (0..n).map(|i| cfg.xmax * (i as f64) / (n - 1) as f64).collect(),
     };
-    let sd: Vec<f64> = (0..n).map(|i| cfg.base * (1.0 + cfg.slope * i as f64 / (n - 1) as f64)).collect();
+    // wmode 3: every third sample is a "dead channel" with a standard deviation 1e9 times larger (weights
+    // exactly 1/sigma_i as in mode 1: such a sample still counts as an observation)
+    let sd: Vec<f64> = (0..n)
+        .map(|i| cfg.base * (1.0 + cfg.slope * i as f64 / (n - 1) as f64) * if cfg.wmode == 3 && i % 3 == 2 { 1e9 } else { 1.0 })
+        .collect();
     let w: Option<Vec<f64>> = match cfg.wmode {
         0 => None,
-        1 => Some(sd.iter().map(|s| 1.0 / s).collect()),
+        1 | 3 => Some(sd.iter().map(|s| 1.0 / s).collect()),
         _ => Some(sd.iter().map(|s| 3.7 / s).collect()),
     };
     let phi = recipe.phi::<f64>(&cfg.truth);
